@@ -7,6 +7,7 @@
  R17.5 the LIST matching path has a case-insensitive provision for INBOX (stored as 'inbox')
  R17.6 the children of the inbox are looked for under its stored name
  R17.7 a reference's trailing hierarchy delimiter survives normalisation (parser records it, do_list restores it)
+ R17.8 a first hierarchy level INBOX is folded to the stored spelling by the name parser and the pattern compiler alike
 """
 from __future__ import annotations
 
@@ -395,7 +396,62 @@ def r17_7(ctx):
     )
 
 
+def _folds_inbox_prefix(fi) -> str | None:
+    """The function rewrites <name> when its first hierarchy level equals 'inbox' case-insensitively."""
+    firsts = {}  # local holding the first level -> the name it was split from
+    for s_ in body_walk(fi.node):
+        if isinstance(s_, ast.Assign) and isinstance(s_.value, ast.Call) and call_name(s_.value) in ("partition", "split") and s_.value.args and isinstance(s_.value.args[0], ast.Constant) and s_.value.args[0].value == "/" and isinstance(call_recv(s_.value), ast.Name):
+            t = s_.targets[0]
+            if isinstance(t, ast.Tuple) and t.elts and isinstance(t.elts[0], ast.Name):
+                firsts[t.elts[0].id] = call_recv(s_.value).id
+        if isinstance(s_, ast.Assign) and isinstance(s_.value, ast.Subscript) and isinstance(s_.value.value, ast.Call) and call_name(s_.value.value) in ("partition", "split") and isinstance(s_.value.slice, ast.Constant) and s_.value.slice.value == 0 and isinstance(s_.targets[0], ast.Name) and isinstance(call_recv(s_.value.value), ast.Name):
+            firsts[s_.targets[0].id] = call_recv(s_.value.value).id
+    for iff in body_walk(fi.node):
+        if not isinstance(iff, ast.If):
+            continue
+        for cmp_ in ast.walk(iff.test):
+            if isinstance(cmp_, ast.Compare) and len(cmp_.ops) == 1 and isinstance(cmp_.ops[0], ast.Eq) and isinstance(cmp_.left, ast.Call) and call_name(cmp_.left) in ("lower", "casefold") and isinstance(cmp_.comparators[0], ast.Constant) and cmp_.comparators[0].value == "inbox":
+                r = call_recv(cmp_.left)
+                if isinstance(r, ast.Name) and r.id in firsts:
+                    name = firsts[r.id]
+                    if any(isinstance(a, ast.Assign) and norm(a.targets[0]) == name and any(isinstance(c, ast.Constant) and c.value == "inbox" for c in ast.walk(a.value)) for a in walk_no_nested(iff)):
+                        return f"`{name}` is rewritten to start with 'inbox' when its first level `{r.id}` equals it case-insensitively"
+    return None
+
+
+def r17_8(ctx):
+    """INBOX is case-insensitive as the first level of a name too.  The name parser and the LIST pattern compiler must agree
+    (sibling agreement): both fold the first level, or a child created as INBOX/x lives outside the inbox / cannot be listed
+    by the spelling it was created with."""
+    p = ctx.p
+    a = p.func("parse.IMAPClientCommand._p_mailbox")
+    b = p.func("mbox.Mailbox._mbox_pattern_to_re")
+    ctx.analysed(a)
+    ctx.analysed(b)
+    fa, fb = _folds_inbox_prefix(a), _folds_inbox_prefix(b)
+    if fa and fb:
+        ctx.ok("R17.8", where(a), f"names: {fa}")
+        ctx.ok("R17.8", where(b), f"patterns: {fb}")
+    elif not fa and not fb:
+        ctx.bad(
+            "R17.8", a.module, a.qual, "first level INBOX not folded",
+            "only a name that is INBOX as a whole is mapped to the inbox folder: `CREATE INBOX/lists` makes a mailbox in a separate "
+            "folder `INBOX` next to the inbox - LIST shows it under INBOX, but it is not a child of the inbox (\\HasNoChildren, not "
+            "reachable as inbox/lists)",
+            a.node.lineno,
+        )
+    else:
+        bad = b if fa else a
+        ctx.bad(
+            "R17.8", bad.module, bad.qual, "first level INBOX folded on one side only",
+            "the name parser and the LIST pattern compiler disagree on the case of a first level INBOX: a mailbox created as INBOX/x "
+            "is stored as inbox/x but `LIST \"\" INBOX/%` looks for INBOX/x (or the other way round)",
+            bad.node.lineno,
+        )
+
+
 def run(ctx):
+    r17_8(ctx)
     r17_1(ctx)
     r17_2(ctx)
     r17_4(ctx)
